@@ -1,4 +1,6 @@
 import E3fpVerif.Model.Fprinter
+import E3fpVerif.Lemmas.Fprinter
+import E3fpVerif.Lemmas.FprinterEx
 namespace E3fpVerif.Props.C02
 open E3fpVerif
 
@@ -18,5 +20,277 @@ theorem signedToUnsigned_range (a : Int) (h1 : -(2 ^ 31 : Int) ≤ a) (h2 : a < 
 theorem signedToUnsigned_inj (a b : Int) (ha1 : -(2 ^ 31 : Int) ≤ a) (ha2 : a < 2 ^ 31) (hb1 : -(2 ^ 31 : Int) ≤ b) (hb2 : b < 2 ^ 31)
     (h : Gen.signedToUnsigned a (2 ^ 32) = Gen.signedToUnsigned b (2 ^ 32)) : a = b := by
   unfold Gen.signedToUnsigned at h; omega
+
+/-! ## 7. level 0: one shell per atom, identifier = hash of the atom invariants -/
+
+theorem initState_levelShells (o : Opts) (m : MolG) (atoms : List Nat) :
+    (initState o m atoms).levelShells = [(genLevel0 o m atoms []).2] := rfl
+
+/-- one shell per atom, in order -/
+theorem level0_atoms (o : Opts) (m : MolG) (atoms : List Nat) :
+    ((initState o m atoms).levelShells.getD 0 []).map (·.atom) = atoms := by
+  rw [initState_levelShells]; exact genLevel0_atoms o m atoms []
+
+theorem level0_ident (o : Opts) (m : MolG) (atoms : List Nat) :
+    ∀ x ∈ (initState o m atoms).levelShells.getD 0 [],
+      x.atom ∈ atoms ∧
+      x.ident = murmur Gen.MMH3_SEED
+        (if o.rdkitInvariants then (atomInfo m x.atom).invR else (atomInfo m x.atom).invD) ∧
+      x.sub = [x.atom] ∧ x.nbrs = [] := by
+  intro x hx
+  rw [initState_levelShells] at hx
+  obtain ⟨ha, t', hx'⟩ := genLevel0_mem o m atoms [] x (by simpa using hx)
+  refine ⟨ha, ?_, ?_, ?_⟩ <;> (rw [hx']; rfl)
+
+/-! ## 8. level `k ≥ 1`: the identifier hashes (level, previous identifier, sorted neighbour tuples) -/
+
+/-- the neighbours: the other atoms within the level-`k` shell (bonded ones only unless
+`include_disconnected`) -/
+theorem mem_nbOf (o : Opts) (m : MolG) (g : Geo) (atoms : List Nat) (k a b : Nat) :
+    b ∈ nbOf o m g atoms k a ↔
+      b ∈ atoms ∧ b ≠ a ∧ g.within k a b = true ∧ (o.includeDisconnected = true ∨ bonded m a b = true) := by
+  unfold nbOf
+  simp [List.mem_filter, and_assoc]
+
+/-- one shell per atom, in order -/
+theorem levelk_atoms (o : Opts) (m : MolG) (g : Geo) (atoms : List Nat) (prev : List GShell) (k : Nat)
+    (t : Intern) : (genLevel o m g atoms prev k t).2.map (·.atom) = atoms :=
+  genLevel_atoms o m g atoms prev k t
+
+theorem levelk_ident (o : Opts) (m : MolG) (g : Geo) (atoms : List Nat) (prev : List GShell) (k : Nat)
+    (t : Intern) :
+    ∀ x ∈ (genLevel o m g atoms prev k t).2,
+      x.atom ∈ atoms ∧
+      x.nbrs = nbOf o m g atoms k x.atom ∧
+      x.ident = murmur Gen.MMH3_SEED
+        ([(k : Int), (shellOf prev x.atom).ident] ++ atomTuples o m g prev x.atom (nbOf o m g atoms k x.atom)) ∧
+      x.sub = uniq (x.atom :: (nbOf o m g atoms k x.atom).flatMap (fun b => (shellOf prev b).sub)) := by
+  intro x hx
+  obtain ⟨ha, t', hx'⟩ := genLevel_mem o m g atoms prev k t x hx
+  refine ⟨ha, ?_, ?_, ?_⟩ <;> (rw [hx']; rfl)
+
+/-- the substructure of a shell: its centre and the substructures of its neighbours' previous shells -/
+theorem levelk_sub_mem (o : Opts) (m : MolG) (g : Geo) (atoms : List Nat) (prev : List GShell) (k : Nat)
+    (t : Intern) (x : GShell) (hx : x ∈ (genLevel o m g atoms prev k t).2) (y : Nat) :
+    y ∈ x.sub ↔ y = x.atom ∨ ∃ b ∈ nbOf o m g atoms k x.atom, y ∈ (shellOf prev b).sub := by
+  rw [(levelk_ident o m g atoms prev k t x hx).2.2.2, mem_uniq]
+  simp [List.mem_flatMap]
+
+/-- "the identifier of `a` in `prev`" is the identifier of a shell of `prev` centred on `a` -/
+theorem prev_shell (prev : List GShell) (atoms : List Nat) (h : prev.map (·.atom) = atoms) (a : Nat)
+    (ha : a ∈ atoms) : shellOf prev a ∈ prev ∧ (shellOf prev a).atom = a :=
+  shellOf_atom prev a (by rw [h]; exact ha)
+
+/-- in a successful step the new generator level is `genLevel` of the previous one at
+`current_level + 1`, so `levelk_ident` describes its shells -/
+theorem step_gen (o : Opts) (m : MolG) (g : Geo) (atoms : List Nat) (s s' : FState)
+    (h : stepState o m g atoms s = some s') :
+    s'.gen = s.gen ++ [(genLevel o m g atoms (s.gen.getLastD []) (s.currentLevel + 1) s.tbl).2] ∧
+    ∀ x ∈ s'.levelShells.getLastD [],
+      x ∈ s.levelShells.getLastD [] ∨
+      x ∈ (genLevel o m g atoms (s.gen.getLastD []) (s.currentLevel + 1) s.tbl).2 := by
+  obtain ⟨_, _, _, rfl⟩ := stepState_some o m g atoms s s' h
+  refine ⟨rfl, ?_⟩
+  intro x hx
+  have hx : x ∈ unionShells (s.levelShells.getLastD []) (stepAccepted o m g atoms s).2 := by
+    simpa using hx
+  rcases unionShells_mem _ _ x hx with h | h
+  · exact Or.inl h
+  · exact Or.inr (stepAccepted_subset o m g atoms s x h)
+
+/-! ## 9. the atom mask removes exactly the shells whose substructure touches it -/
+
+theorem mask_empty (s : FState) (req : Option Int) :
+    shellsAt s req [] = s.levelShells.getD (resolveLevel s req) [] := by
+  unfold shellsAt
+  simp
+
+theorem mask_exact (s : FState) (req : Option Int) (mask : List Nat) :
+    shellsAt s req mask = (shellsAt s req []).filter (fun x => x.sub.all (fun a => !mask.contains a)) := by
+  rw [mask_empty]
+  unfold shellsAt
+  congr 1
+  funext x
+  rw [List.not_any_eq_all_not]
+
+theorem mask_mem (s : FState) (req : Option Int) (mask : List Nat) (x : GShell) :
+    x ∈ shellsAt s req mask ↔ x ∈ shellsAt s req [] ∧ ∀ a ∈ x.sub, a ∉ mask := by
+  rw [mask_exact, List.mem_filter]
+  simp
+
+/-! ## 10. duplicate substructures are dropped in the order given; first occurrence wins -/
+
+/-- the explicit recursive characterisation -/
+theorem dedup_spec (past : List (List Nat)) (cands : List GShell) :
+    dedupShells past cands = (past ++ (dedupSpec past cands).map (·.sub), dedupSpec past cands) :=
+  dedupShells_eq past cands
+
+/-- position by position: the candidate `s` after `pre` is kept iff its substructure is not in `past`
+and no earlier candidate has the same substructure; the later candidates see all of them -/
+theorem dedup_order (past : List (List Nat)) (pre : List GShell) (s : GShell) (post : List GShell) :
+    (dedupShells past (pre ++ s :: post)).2 =
+      (dedupShells past pre).2
+        ++ (if past.contains s.sub || pre.any (fun x => x.sub == s.sub) then [] else [s])
+        ++ (dedupShells (past ++ (pre ++ [s]).map (·.sub)) post).2 := by
+  simp only [dedupShells_eq]
+  exact dedupSpec_first_occurrence past pre s post
+
+/-- the accepted shells are a sublist of the candidates (order kept) -/
+theorem dedup_sublist (past : List (List Nat)) (cands : List GShell) :
+    (dedupShells past cands).2.Sublist cands := by
+  rw [dedupShells_eq]; exact dedupSpec_sublist past cands
+
+/-- the accepted substructures are pairwise distinct … -/
+theorem dedup_nodup (past : List (List Nat)) (cands : List GShell) :
+    ((dedupShells past cands).2.map (·.sub)).Nodup := by
+  rw [dedupShells_eq]; exact dedupSpec_nodup past cands
+
+/-- … and not in `past` -/
+theorem dedup_disjoint (past : List (List Nat)) (cands : List GShell) :
+    ∀ x ∈ (dedupShells past cands).2, x.sub ∉ past := by
+  rw [dedupShells_eq]; exact dedupSpec_not_past past cands
+
+/-- every candidate, kept or dropped, has its substructure in `past` or among the accepted ones -/
+theorem dedup_dropped (past : List (List Nat)) (cands : List GShell) :
+    ∀ x ∈ cands, x.sub ∈ past ++ (dedupShells past cands).2.map (·.sub) := by
+  rw [dedupShells_eq]; exact dedupSpec_covers past cands
+
+/-- the new `past` is the old one followed by the accepted substructures -/
+theorem dedup_past (past : List (List Nat)) (cands : List GShell) :
+    (dedupShells past cands).1 = past ++ (dedupShells past cands).2.map (·.sub) := by
+  rw [dedupShells_eq]
+
+/-- the candidates are presented in (identifier, centre) order, and they are the generated shells -/
+theorem candidates_sorted (l : List GShell) :
+    (sortByLt ltShell l).Pairwise (fun a b => a.ident < b.ident ∨ (a.ident = b.ident ∧ a.atom ≤ b.atom)) ∧
+    (sortByLt ltShell l).Perm l :=
+  ⟨sortByLt_ltShell_sorted l, sortByLt_perm ltShell l⟩
+
+/-! ## 11. a run succeeds on admissible input, and every identifier is a 32-bit hash -/
+
+theorem run_ok (o : Opts) (m : MolG) (g : Geo) (h1 : retained o m ≠ [])
+    (h2 : o.level = -1 → o.removeDup = true) (h3 : ∀ e ∈ m.bonds, e.2.2 ≠ 0) :
+    ∃ s, runFp o m g = .ok s :=
+  ⟨_, (runFp_ok_iff o m g _).2 ⟨h2, h3, h1, rfl⟩⟩
+
+/-- … and only then -/
+theorem run_ok_iff (o : Opts) (m : MolG) (g : Geo) :
+    (∃ s, runFp o m g = .ok s) ↔
+      retained o m ≠ [] ∧ (o.level = -1 → o.removeDup = true) ∧ (∀ e ∈ m.bonds, e.2.2 ≠ 0) := by
+  constructor
+  · rintro ⟨s, hs⟩
+    obtain ⟨a, b, c, _⟩ := (runFp_ok_iff o m g s).1 hs
+    exact ⟨c, a, b⟩
+  · rintro ⟨a, b, c⟩; exact run_ok o m g a b c
+
+/-- every accepted shell carries a `murmur` value -/
+def IdentsHashed (s : FState) : Prop :=
+  ∀ l ∈ s.levelShells, ∀ x ∈ l, ∃ ws, x.ident = murmur Gen.MMH3_SEED ws
+
+theorem identsHashed_init (o : Opts) (m : MolG) (atoms : List Nat) : IdentsHashed (initState o m atoms) := by
+  intro l hl x hx
+  rw [initState_levelShells, List.mem_singleton] at hl
+  subst hl
+  obtain ⟨_, t', hx'⟩ := genLevel0_mem o m atoms [] x hx
+  exact ⟨_, by rw [hx']; rfl⟩
+
+theorem identsHashed_step (o : Opts) (m : MolG) (g : Geo) (atoms : List Nat) (s s' : FState)
+    (hinv : IdentsHashed s) (h : stepState o m g atoms s = some s') : IdentsHashed s' := by
+  obtain ⟨_, _, _, rfl⟩ := stepState_some o m g atoms s s' h
+  intro l hl x hx
+  rcases List.mem_append.1 hl with hl | hl
+  · exact hinv l hl x hx
+  · rw [List.mem_singleton] at hl
+    subst hl
+    rcases unionShells_mem _ _ x hx with h | h
+    · rcases getLastD_mem_or_nil s.levelShells with h' | h'
+      · exact hinv _ h' x h
+      · rw [h'] at h; cases h
+    · obtain ⟨_, t', hx'⟩ := genLevel_mem o m g atoms _ _ _ x (stepAccepted_subset o m g atoms s x h)
+      exact ⟨_, by rw [hx']; rfl⟩
+
+/-- **identifier range**: every identifier of every level of a run is a MurmurHash3 value, hence a
+signed 32-bit integer -/
+theorem ident_range (o : Opts) (m : MolG) (g : Geo) (s : FState) (h : runFp o m g = .ok s) :
+    ∀ l ∈ s.levelShells, ∀ x ∈ l,
+      (∃ ws, x.ident = murmur Gen.MMH3_SEED ws) ∧ -(2 ^ 31 : Int) ≤ x.ident ∧ x.ident < 2 ^ 31 := by
+  obtain ⟨_, _, _, rfl⟩ := (runFp_ok_iff o m g s).1 h
+  intro l hl x hx
+  obtain ⟨ws, hws⟩ := iterate_induction o m g (retained o m) IdentsHashed
+    (identsHashed_step o m g (retained o m)) _ _ (identsHashed_init o m (retained o m)) l hl x hx
+  exact ⟨⟨ws, hws⟩, by rw [hws]; exact murmur_range _ _⟩
+
+/-- so the indices `fingerprintAt` sets are in `[0, 2^32)` -/
+theorem index_range (o : Opts) (m : MolG) (g : Geo) (s : FState) (h : runFp o m g = .ok s)
+    (req : Option Int) (mask : List Nat) :
+    ∀ x ∈ shellsAt s req mask,
+      0 ≤ Gen.signedToUnsigned x.ident (Gen.BITS : Nat) ∧
+      Gen.signedToUnsigned x.ident (Gen.BITS : Nat) < 2 ^ 32 := by
+  intro x hx
+  unfold shellsAt at hx
+  have hx := (List.mem_filter.1 hx).1
+  rw [List.getD_eq_getElem?_getD] at hx
+  cases hl : s.levelShells[resolveLevel s req]? with
+  | none => rw [hl] at hx; cases hx
+  | some l =>
+    rw [hl] at hx
+    obtain ⟨_, h1, h2⟩ := ident_range o m g s h l (List.mem_of_getElem? hl) x hx
+    exact signedToUnsigned_range x.ident h1 h2
+
+/-! ## non-vacuity: the hypotheses above are met by the four-atom chain of `Lemmas/FprinterEx.lean` -/
+section NonVacuity
+open Ex
+
+/- `level0_ident`: level 0 has shells -/
+set_option maxRecDepth 100000 in
+example : ((initState o m atoms).levelShells.getD 0 []).length = 4 := by decide
+
+/- `levelk_ident`, `levelk_sub_mem`: level 1 generated from level 0 has shells -/
+set_option maxRecDepth 100000 in
+example : (genLevel o m g atoms (s0.gen.getLastD []) 1 s0.tbl).2.length = 4 := by decide
+
+/- `mem_nbOf`: atom 1 has the neighbours 0 and 2 -/
+example : nbOf o m g atoms 1 1 = [0, 2] := by decide
+
+/- `prev_shell`: the previous level has one shell per atom -/
+example : (s0.gen.getLastD []).map (·.atom) = atoms ∧ 2 ∈ atoms :=
+  ⟨genLevel0_atoms o m atoms [], by decide⟩
+
+/- `step_gen`, `identsHashed_step`: a step that succeeds -/
+example : ∃ s', stepState o m g atoms s0 = some s' := Option.isSome_iff_exists.1 step0_some
+
+/- `mask_mem`, `mask_exact`: masking atom 0 removes shells (and keeps some) -/
+set_option maxRecDepth 100000 in
+example : (shellsAt (sN 3) none []).length = 9 ∧ (shellsAt (sN 3) none [0]).length = 5 := by decide
+
+/- `dedup_order`: both branches occur. With `past = [[0]]` and candidates with substructures
+`[0], [1], [1], [2]` the first is dropped (in `past`), the second kept, the third dropped
+(an earlier candidate has it), the fourth kept -/
+def sh (a : Nat) (sub : List Nat) : GShell := { atom := a, sid := a, sub := sub, nbrs := [], ident := 0 }
+example : (dedupShells [[0]] [sh 0 [0], sh 1 [1], sh 2 [1], sh 3 [2]]).2 = [sh 1 [1], sh 3 [2]] := by decide
+example : ([[0]].contains (sh 2 [1]).sub || [sh 0 [0], sh 1 [1]].any (fun x => x.sub == (sh 2 [1]).sub)) = true := by
+  decide
+example : ([[0]].contains (sh 1 [1]).sub || [sh 0 [0]].any (fun x => x.sub == (sh 1 [1]).sub)) = false := by
+  decide
+
+/- `dedup_dropped`, `dedup_disjoint`: in the example run the duplicate filter does drop candidates:
+level 1 generates 4 shells, `past` grows by 4; level 2 generates 4 and accepts 1 -/
+set_option maxRecDepth 100000 in
+example : (sN 1).past.length = 8 ∧ (sN 2).past.length = 9 := by decide
+
+/- `run_ok`, `run_ok_iff`: the three hypotheses hold -/
+example : retained o m ≠ [] ∧ (o.level = -1 → o.removeDup = true) ∧ (∀ e ∈ m.bonds, e.2.2 ≠ 0) :=
+  ⟨by rw [retained_eq]; decide, fun _ => rfl, by decide⟩
+
+/- `ident_range`, `index_range`: a run that succeeds with shells at every level -/
+set_option maxRecDepth 100000 in
+example : (runFp o m g).toOption.map (·.levelShells.map (·.length)) = some [4, 8, 9] := by decide
+
+/- the level-0 identifier of atom 0 (invariants `[6, 1]`), computed -/
+set_option maxRecDepth 100000 in
+example : ((initState o m atoms).levelShells.getD 0 []).map (·.ident)
+    = [murmur 0 [6, 1], murmur 0 [6, 2], murmur 0 [7, 2], murmur 0 [8, 1]] := by decide
+
+end NonVacuity
 
 end E3fpVerif.Props.C02
